@@ -58,7 +58,7 @@ fn run_with_plan(doc: &str, cfg: &Cfg, plan: &[usize]) -> (Outcome, Vec<usize>) 
 }
 
 const VOCAB: &[&str] = &[
-    "d-grid-5", "d-grid-7", "d-grid-12", "d-hatch-3", "d-hatch-10", "d-stipple-2", "d-stipple-6",
+    "d-grid-5", "d-grid-05", "d-grid-7", "d-grid-12", "d-hatch-3", "d-hatch-03", "d-hatch-10", "d-stipple-2", "d-stipple-6",
     "d-crosshatch-2", "d-crosshatch-9", "d-grid-h-3", "d-grid-h-8", "d-grid-v-4", "d-grid", "d-hatch",
     "d-arrow", "d-softshadow", "d-red", "d-fill-blue", "d-text-bold", "d-flow",
 ];
@@ -84,7 +84,7 @@ fn subsets(n: usize, max: usize) -> Vec<Vec<usize>> {
 
 fn class_docs(tier: Tier) -> Vec<String> {
     let max = tier.pick(3, 4);
-    let nvocab = tier.pick(14, VOCAB.len());
+    let nvocab = tier.pick(16, VOCAB.len());
     let mut docs = Vec::new();
     for s in subsets(nvocab, max) {
         if s.is_empty() {
